@@ -46,11 +46,27 @@ pub fn build_case(d: &mut Driver, rep: &mut Report, cfg: &WCfg, es: &[(Vec<u8>, 
     }
 }
 
+/// at most this many large (> 16 KiB) tables per process: every request about one carries the whole image
+pub static LARGE_BUDGET: std::sync::atomic::AtomicUsize = std::sync::atomic::AtomicUsize::new(3);
+
 pub fn gen_case(d: &mut Driver, rep: &mut Report, rng: &mut Rng, max_n: usize) -> Option<TableCase> {
     // one case in six: a table spanning several 2 KiB filter ranges made of many small blocks, with a
     // padded first value so that block offsets sweep every alignment relative to the range boundaries
     if max_n >= 20 && rng.chance(1, 6) {
         return gen_multi_range_case(d, rep, rng);
+    }
+    // one case in forty: a table with > 1000 entries in tiny blocks - block offsets beyond 16384 (3-byte varints in
+    // the handles), an index block with hundreds of entries and restarts, filter offsets beyond one byte
+    if max_n >= 20 && rng.chance(1, 40) && LARGE_BUDGET.fetch_update(std::sync::atomic::Ordering::SeqCst, std::sync::atomic::Ordering::SeqCst, |b| if b > 0 { Some(b - 1) } else { None }).is_ok() {
+        let mut cfg = gen_wcfg(rng);
+        cfg.block_size = *rng.pick(&[0usize, 16, 40]);
+        let n = rng.range(750, 950);
+        let mut es: Vec<(Vec<u8>, Vec<u8>)> = (0..n).map(|i| (format!("k{:05}", i * 3).into_bytes(), rng.any_bytes(i % 7))).collect();
+        if cfg.cmp == CmpKind::Reverse {
+            es.reverse();
+        }
+        rep.count("tables_large_over_16k");
+        return build_case(d, rep, &cfg, &es);
     }
     let cfg = gen_wcfg(rng);
     let es = gen_entries(rng, &cfg.cmp, max_n, 80);
